@@ -36,7 +36,22 @@ func c09History(r *run, g *rng, kind int, tagW, minW int, probeLvl int, pc uintp
 		n = 0
 	}
 	for i := 0; i < n; i++ {
-		switch g.intn(9) {
+		switch g.intn(10) {
+		case 9: // a record one of whose values panics while it is rendered (the caller recovers): the
+			// half-used formatting context must not come back
+			rec := &recorder{}
+			var l slog.Logger = slog.New("h9").SetWriter(rec).SetErrorWriter(rec).SetLevel(slog.TraceLevel)
+			switch g.intn(3) {
+			case 0:
+				l.SetJSONMode(true)
+			case 1:
+				l.SetColorMode(false)
+			}
+			func() {
+				defer func() { _ = recover() }()
+				l.Info("a value panics", "req", slog.NewGroupedAttr("inner", slog.NewAttr("boom", c09Panicker{})), "after", 1)
+			}()
+			desc = append(desc, "record with a value whose String() panics (recovered)")
 		case 7: // a record from the probe's call site that carries an error with a stack trace (its
 			// rendering of the error's origin is outside the encoder model: no protocol line)
 			rec := &recorder{}
@@ -122,6 +137,10 @@ func c09Tag(p []byte) string {
 	}
 	return s[i+1 : j]
 }
+
+type c09Panicker struct{}
+
+func (c09Panicker) String() string { panic("c09: String() of a value panics") }
 
 var c09Err = errorsv3.New("stack carrying error")
 
